@@ -247,6 +247,7 @@ class Interp(object):
         self.current_line = None
         self.sys_path = ['<sys.path[0]>']
         self.memoise_cached = False
+        self.guarded_getattr = 0
 
     # ---- path exploration ------------------------------------------------
     def reset_path(self, prefix):
@@ -651,12 +652,17 @@ class Interp(object):
 
     def nat_getattr(self, args, kwargs):
         v, a = args[0], args[1]
+        if len(args) == 3:
+            self.guarded_getattr += 1
         try:
             return self.getattr(v, a)
         except InterpRaise as e:
             if len(args) == 3 and e.exc_name == 'AttributeError':
                 return args[2]
             raise
+        finally:
+            if len(args) == 3:
+                self.guarded_getattr -= 1
 
     def nat_setattr(self, args, kwargs):
         self.setattr(args[0], args[1], args[2])
